@@ -13,6 +13,7 @@ use serde_json::{Value, json};
 mod bristol;
 mod builder;
 mod circ;
+mod front;
 mod lang;
 mod lit;
 mod types;
@@ -36,6 +37,10 @@ fn handle(case: &Value) -> Value {
         "compile_eval" => lang::compile_eval(case),
         "literal_check" => lit::literal_check(case),
         "compile_repeat" => lang::compile_repeat(case),
+        "frontend" => front::frontend(case),
+        "parse_arg" => front::parse_arg(case),
+        "scan" => front::scan(case),
+        "render" => front::render(case),
         _ => json!({"error": format!("unknown op {op}")}),
     }
 }
